@@ -461,6 +461,7 @@ def run(chk):
     chk.rule("builder-exact", "_construct_symbolic_mpo as a whole (graph decompositions, 2-5 sites, term tables with shared prefixes / suffixes, long-range pairs, the identity term) on exact data: "
              "the expanded product of the bond operators is the term table with its coefficients; quantum numbers attached to the bond operators are those of their strings", 12)
     DR.chain_builder_rule(chk, src, "builder-exact")
+    DR.one_term_rule(chk, src, "builder-exact")
     chk.rule("split-order", "Op.split_elementary keeps intra-site symbol order, sites ascending; duplicates merged by summing factors", 4)
     chk.rule("term-table", "_terms_to_table: row i and coefficient i are those of term i; constant last, only when non-zero (abstract run on terms with equal operator strings)", 1)
     s = sp.Symbol("s")
